@@ -783,6 +783,8 @@ class World:
             digits = z3.InRe(s, z3.Plus(z3.Range("0", "9")))
             it.path.assume(z3.Implies(digits, z3.And(okf(s), valf(s) == z3.StrToInt(s))), check=False)
         it.path.assume(z3.Implies(z3.Length(s) == 0, z3.Not(okf(s))), check=False)
+        # assumed contract of int(): a numeral never contains a quote character
+        it.path.assume(z3.Implies(okf(s), z3.And(z3.Not(z3.Contains(s, z3.StringVal('"'))), z3.Not(z3.Contains(s, z3.StringVal("'"))))), check=False)
         it.guard(mk_bool(okf(s)), "ValueError", n, f"invalid literal for int() with base {base}")
         return mk_int(valf(s))
 
